@@ -165,6 +165,7 @@ class State:
         self.assume(z3.And(t >= DT_MIN_US, t <= DT_MAX_US))
         if self.clock_terms:
             self.assume(t >= self.clock_terms[-1])
+        self.input_terms[f"clock[{len(self.clock_terms)}]"] = t
         self.clock_terms.append(t)
         self.assumed_used.add("wall clock: successive readings inside one function are non-decreasing")
         return t
